@@ -138,7 +138,9 @@ def handleSens (j : Json) : Except String Json := do
   | some table =>
       let pcells := sensPhysCells floatNum AF.Prior.floatSpecial (tripOf table) scale dims
       out := out ++ [("fphys_cells", jList (jList fun (c : SensPhys Float) =>
-        Json.arr #[jOutcome c.centre, jLimits c.limits]) pcells)]
+        Json.arr #[jOutcome c.centre, jLimits c.limits]) pcells),
+        ("labels", jList (jList fun (x : String × AF.Prior.Outcome Float) => Json.arr #[Json.str x.1, jOutcome x.2])
+          (sensLabels floatNum AF.Prior.floatSpecial (tripOf table) scale cfg namesId namesAttr dims))]
   | none => pure ()
   if wantRat j then
     let rr ← ratRanges ranges
